@@ -780,7 +780,19 @@ pub(crate) fn check_if_response_is_matched(
             let first_last_n_header_number = headers[reorg_count].header().number();
             let last_last_n_header_number = headers[headers.len() - 1].header().number();
             let last_number = last_header.header().number();
-            if first_last_n_header_number != start_number
+            // Samples were requested, but every requested difficulty is reached only within the
+            // last n blocks: a server has nothing to sample and sends the last n blocks only.
+            let nothing_to_sample = last_n_count >= last_n_blocks && {
+                let first_last_n_header = &headers[reorg_count];
+                let total_difficulty_before_last_n = first_last_n_header
+                    .total_difficulty()
+                    .saturating_sub(&first_last_n_header.header().difficulty());
+                prev_request
+                    .difficulties()
+                    .into_iter()
+                    .all(|d| Unpack::<U256>::unpack(&d) > total_difficulty_before_last_n)
+            };
+            if (first_last_n_header_number != start_number && !nothing_to_sample)
                 || last_last_n_header_number.checked_add(1) != Some(last_number)
             {
                 let errmsg = format!(
